@@ -14,7 +14,7 @@ RULE = ('each case obtains pairing values g, h (pairings of random / boundary mu
 
 
 def cases(tier, seed):
-    n = 256 if tier == 'quick' else 6000
+    n = 256 if tier == 'quick' else 10000
     return [('gt', i) for i in range(n)]
 
 
